@@ -225,6 +225,52 @@ func c17Forwarder(r *Run) {
 		byEnvelope[env.UUID] = it
 		src.Script[effTopic] = append(src.Script[effTopic], env)
 	}
+	// half of the runs: some more messages (with different sets of metadata keys) go through the forwarder's Publisher
+	// in ONE Publish call
+	if t.Chance(1, 2) {
+		nb := 2 + t.Int(2)
+		batchTopic := simrt.Pick(t, "orders", "topic with space", "t/ü")
+		var batch []*message.Message
+		var its []*c17Item
+		for j := 0; j < nb; j++ {
+			it := c17RandomItem(t, n+j)
+			it.uuid = fmt.Sprintf("%s#b%d", it.uuid, j)
+			it.destTopic = batchTopic
+			items = append(items, it)
+			its = append(its, it)
+			m := message.NewMessage(it.uuid, []byte(it.payload))
+			for k, v := range it.meta {
+				m.Metadata.Set(k, v)
+			}
+			batch = append(batch, m)
+		}
+		before := len(capture.Calls)
+		if err := fp.Publish(batchTopic, batch...); err != nil {
+			r.Fail("C17.R1", "forwarder.Publisher failed to wrap a valid batch", "%v", err)
+			return
+		}
+		var envs []*message.Message
+		for _, c := range capture.Calls[before:] {
+			if c.Topic != effTopic {
+				r.Fail("C17.R1", "forwarder.Publisher did not publish one envelope on the forwarder topic", "topic %q", c.Topic)
+				return
+			}
+			envs = append(envs, c.Msgs...)
+		}
+		if len(envs) != nb {
+			r.Fail("C17.R1", "forwarder.Publisher did not publish one envelope per message of a batch", "%d envelopes for %d messages", len(envs), nb)
+			return
+		}
+		for j, e := range envs {
+			pending = append(pending, struct {
+				pos int
+				m   *message.Message
+			}{len(src.Script[effTopic]), e})
+			byEnvelope[e.UUID] = its[j]
+			src.Script[effTopic] = append(src.Script[effTopic], ScriptMsg{UUID: e.UUID})
+		}
+		r.Probe("batch-through-forwarder-publisher")
+	}
 	for _, pe := range pending {
 		src.Script[effTopic][pe.pos].Payload = string(pe.m.Payload)
 		src.Script[effTopic][pe.pos].Metadata = copyMeta(pe.m.Metadata)
